@@ -64,7 +64,7 @@ def run(r: core.Run, prop, module, rule, want):
                 continue
             if not o.startswith("X "):
                 continue
-            mine = (want == "roundtrip" and fam in ("printed", "written")) or (want == "total" and fam in ("short", "mutated", "malformed-line"))
+            mine = (want == "roundtrip" and fam in ("printed", "written")) or (want == "total" and fam in ("short", "mutated", "malformed-line", "skeleton"))
             if not mine:
                 continue
             cls = a.split(" ")[0]
@@ -134,7 +134,7 @@ def run(r: core.Run, prop, module, rule, want):
             if o.startswith(("X ", "W ")):
                 fam = kv(o, "fam") or "print"
                 mine = (want == "roundtrip" and (o.startswith("W ") or fam in ("printed", "written"))) or \
-                       (want == "total" and fam in ("short", "mutated", "malformed-line"))
+                       (want == "total" and fam in ("short", "mutated", "malformed-line", "skeleton"))
                 if mine:
                     r.cov["evaluations"] += 1
                     fams[fam] += 1
